@@ -245,3 +245,47 @@ impl Model for CModel {
         }
     }
 }
+
+/// Long histories on checksums with more entries than the BFS universe (the hash map inside
+/// grows through several resizes): 20 algorithms inserted in three orders, the full state oracle
+/// (entries, text form, round trip) after every step, then removed.
+pub fn long_histories(acc: &mut Acc) -> Value {
+    let algs: Vec<String> = (0..20).map(|i| format!("{}{}", ["sha", "md", "blake", "x-"][i % 4], i)).collect();
+    let mut lower = algs.clone();
+    lower.sort();
+    let m = CModel { prop: "C12", spellings: algs.clone(), lower, acts: vec![] };
+    let n = algs.len();
+    let orders: [Vec<usize>; 3] = [(0..n).collect(), (0..n).rev().collect(), (0..n).map(|i| (i * 7) % n).collect()];
+    let mut steps = 0u64;
+    for (oi, order) in orders.iter().enumerate() {
+        let mut st = CState { real: Checksum::default(), refm: BTreeMap::new() };
+        let mut history: Vec<Value> = Vec::new();
+        let mut acts: Vec<CAct> = Vec::new();
+        for (j, i) in order.iter().enumerate() {
+            let a = if j % 2 == 0 { algs[*i].clone() } else { algs[*i].to_ascii_uppercase() };
+            acts.push(if j % 3 == 0 { CAct::InsertBytes(a, vec![j as u8, 0xAB]) } else { CAct::InsertRaw(a, format!("{:02X}ff", j)) });
+        }
+        for i in order.iter().rev() {
+            acts.push(CAct::Remove(algs[*i].clone()));
+        }
+        for act in acts {
+            history.push(json!(format!("{:?}", act)));
+            let tr = || json!({"engine": "checksum-long", "order": oi, "history": history});
+            match guarded(|| {
+                let nx = m.step(&st, &act, &tr, acc);
+                m.check_state(&nx, &tr, acc);
+                nx
+            }) {
+                Ok(nx) => st = nx,
+                Err(msg) => {
+                    acc.violate(Violation { prop: "C06", kind: "panic".into(), case: tr(), detail: msg });
+                    break;
+                },
+            }
+            steps += 1;
+        }
+    }
+    acc.evals += steps;
+    acc.nontrivial += steps;
+    json!({"engine": "C-long-histories", "algorithms": n, "histories": 3, "steps": steps})
+}
